@@ -56,9 +56,9 @@ theorem parseTpl_shifts : Shifts parseTpl := by
       obtain ⟨res, r3⟩ := p
       cases res <;> rfl
 
-theorem parseOptTpl_shifts : Shifts parseOptTpl := by
+theorem parseOptTplM_shifts (M : Nat) : Shifts (parseOptTplM M) := by
   intro k r
-  simp only [parseOptTpl, rU16_shift]
+  simp only [parseOptTplM, rU16_shift]
   cases h1 : r.rU16 with
   | none => rfl
   | some p1 =>
@@ -74,15 +74,19 @@ theorem parseOptTpl_shifts : Shifts parseOptTpl := by
       | some p3 =>
         obtain ⟨sc, r3⟩ := p3
         simp only [Option.map_some, readSpecs_shifts sc [] k r3]
+        generalize (n + M - sc) % M = nf
         generalize readSpecs sc r3 [] = p
         obtain ⟨res, r4⟩ := p
         cases res with
         | error e => rfl
         | ok scs =>
-          simp only [readSpecs_shifts ((n + 65536 - sc) % 65536) [] k r4]
-          generalize readSpecs ((n + 65536 - sc) % 65536) r4 [] = q
+          simp only [readSpecs_shifts nf [] k r4]
+          generalize readSpecs nf r4 [] = q
           obtain ⟨res2, r5⟩ := q
           cases res2 <;> rfl
+
+/-- (proved on the copy `parseOptTplM`, see there) -/
+theorem parseOptTpl_shifts : Shifts parseOptTpl := parseOptTplM_shifts 65536
 
 theorem dataLen_shifts (specLen ty : Nat) : Shifts (fun r => dataLen r specLen ty) := by
   intro k r
